@@ -432,6 +432,13 @@ func (r *codecRunner) run(op Op) {
 		e.N = planted
 		e.Ok, e.RefOk = e.Panic == "", true
 		r.project(e)
+	case "plantempty":
+		// Go-level state: nil slices and maps become empty non-nil ones (Mutable without Append,
+		// Append then Truncate(0)); the abstract value is unchanged
+		e.evName = "plantnil"
+		e.Panic = catch(func() { plantEmpty(reflect.ValueOf(r.p)) })
+		e.Ok, e.RefOk = e.Panic == "", true
+		r.project(e)
 	case "alias_in":
 		// C07: decode from a caller buffer, then overwrite that buffer: the message must not notice
 		// (the input sits at offset op.Off of its backing array: zero-copy views of aligned
@@ -442,6 +449,10 @@ func (r *codecRunner) run(op Op) {
 		var uerr error
 		e.Panic = catch(func() { uerr = proto.Unmarshal(in, fresh) })
 		e.Ok = uerr == nil && e.Panic == ""
+		if !bytes.Equal(in, proj.ToBytes(op.In)) {
+			e.Err += "|input modified by Unmarshal"
+			e.Ok = false
+		}
 		if uerr != nil {
 			e.Err = uerr.Error()
 		}
@@ -543,6 +554,60 @@ func (r *codecRunner) run(op Op) {
 					e.ROChanged = append(e.ROChanged, fmt.Sprintf("%s(variant %d)", name, vi))
 				}
 			}
+		}
+		// reads through list / map views that were taken before their field was cleared: what such
+		// a stale view SHOWS is unspecified (DESIGN 3.1), but reading through it is still a read --
+		// the struct must not change (a lazily re-created container would)
+		if pn := catch(func() {
+			c := proto.Clone(r.p)
+			cm := c.ProtoReflect()
+			type view struct {
+				fd protoreflect.FieldDescriptor
+				v  protoreflect.Value
+				k  protoreflect.MapKey
+			}
+			var views []view
+			cm.Range(func(fd protoreflect.FieldDescriptor, v protoreflect.Value) bool {
+				switch {
+				case fd.IsList():
+					views = append(views, view{fd: fd, v: v})
+				case fd.IsMap():
+					w := view{fd: fd, v: v}
+					v.Map().Range(func(k protoreflect.MapKey, _ protoreflect.Value) bool { w.k = k; return false })
+					views = append(views, w)
+				}
+				return true
+			})
+			for _, w := range views {
+				cm.Clear(w.fd)
+			}
+			before := snapshot(reflect.ValueOf(c))
+			for _, w := range views {
+				catch(func() {
+					if w.fd.IsList() {
+						l := w.v.List()
+						_ = l.IsValid()
+						if l.Len() > 0 {
+							_ = l.Get(0)
+						}
+					} else {
+						mp := w.v.Map()
+						_ = mp.IsValid()
+						_ = mp.Len()
+						if w.k.IsValid() {
+							_ = mp.Has(w.k)
+							_ = mp.Get(w.k)
+						}
+						mp.Range(func(protoreflect.MapKey, protoreflect.Value) bool { return true })
+					}
+				})
+				e.ROCalls++
+			}
+			if after := snapshot(reflect.ValueOf(c)); after != before {
+				e.ROChanged = append(e.ROChanged, "reads through stale list/map views")
+			}
+		}); pn != "" {
+			e.ROChanged = append(e.ROChanged, "stale views: panic "+pn)
 		}
 		e.Ok, e.FastEq, e.RefOk = true, true, true
 	case "size":
@@ -706,6 +771,7 @@ func randomCodecPlan(g *val.Gen, mt protoreflect.MessageType, mode string, emit 
 			x = g.InjectUnknown(md, b, 0)
 		}
 		emit(Op{Op: "alias_in", In: proj.Bytes(x), Tag: "mem"})
+		emit(Op{Op: "alias_in", In: proj.Bytes(g.Xform(md, b, 0)), Tag: "mem-xform"}) // non-canonical but well-typed streams
 		if len(x) >= 120 {
 			// zero-copy views of fixed-width payloads depend on the alignment of the input
 			for off := 1; off < 8; off++ {
@@ -730,6 +796,13 @@ func randomCodecPlan(g *val.Gen, mt protoreflect.MessageType, mode string, emit 
 			}
 			emit(Op{Op: "append", Det: g.R.Intn(2) == 0, Prefix: prefix, Cap: []int{0, 3, len(b) + pl + 16, 4096}[g.R.Intn(4)], Tag: "size"})
 		}
+	}
+	if is("size") {
+		// the same value with empty-but-non-nil containers
+		emit(Op{Op: "plantempty", Tag: "size-empty"})
+		emit(Op{Op: "size", Det: true, Tag: "size-empty"})
+		emit(Op{Op: "append", Det: true, Prefix: []int{1, 2, 3}, Cap: 64, Tag: "size-empty"})
+		emit(Op{Op: "load", T: t, V: v})
 	}
 	if is("xform") {
 		x := g.Xform(md, b, 0)
